@@ -214,7 +214,7 @@ class Integer(int, AnyAtomicType):
         if isinstance(value, cls):
             return
         elif isinstance(value, str):
-            if cls.pattern.match(value) is None:
+            if cls.pattern.match(collapse_white_spaces(value)) is None:
                 raise cls._invalid_value(value)
             cls(value)  # checks the bounds of the derived integer types
         else:
